@@ -1,3 +1,4 @@
+\* quick: value family, 1..3 values, all two-scope layouts, graph and function tops
 CONSTANTS
   Layouts = {0, 1, 2, 3, 5, 6, 7, 8}
   Tops = {"graph", "function"}
